@@ -1,3 +1,344 @@
-import CnlModel.Wide
+import CnlProofs.Wide
+/-!
+# C10 — `cnl::wide_integer` behaves as an N-bit two's-complement integer for any N
+
+`Cnl.Wide` (CnlModel/Wide.lean) transcribes the routines of the vendored `uintwide_t` that
+`cnl::wide_integer` reaches: a value is a list of `n` limbs of `w` bits, least significant first.
+`Cnl.WideSpec` (CnlSpec/Wide.lean) is the property's side: mathematical integers, `wrapTwos N signed`
+(reduction to the N-bit two's-complement range), division truncating toward zero, floor right shift,
+bitwise operators on N-bit patterns, decimal text from first principles — no limbs anywhere.
+
+Every theorem below holds for **all limb widths `w ≥ 1` and all limb counts `n ≥ 1`** (induction on
+the limb list); `Val f a` says `a` is a well-formed value of format `f` (`n` limbs, each `< 2^w`),
+`toInt f a` is its two's-complement reading, `f.N = w·n` the width.
+
+* Part 1: the limb routines (`eval_add_n`, `eval_subtract_n`, `eval_multiply_n_by_n_to_lo_part` generic and
+  unrolled, `eval_multiply_1d`, `eval_divide_by_single_limb`, `shl`, `shr`, `negate`, `compare_ranges`,
+  bitwise, `eval_divide_knuth`) compute the exact arithmetic they stand for, with carries.
+* Part 2: hence each operator, read as a value, equals `wrapTwos N` of the exact result, for signed and
+  unsigned formats; the right-hand sides do not mention `w`.
+* Part 3: the corollary that results do not depend on how a value is split into limbs.
+* Part 4: conversions from/to built-in integers, `numeric_limits`, decimal text, the storage rule.
+
+Division is **full**, not partial: `knuth_complete` proves that Algorithm D's `q̂` correction (decrement
+loop + one add-back) always suffices — `divChecked` (run the transcription, then check `q·b + r = a ∧ r < b`)
+never fails — so `div_wraps`/`mod_wraps` carry no hypothesis about the algorithm.
+
+Side conditions that are genuinely needed and why: the unrolled four-limb multiply needs `3 ≤ w`
+(its column sums must fit a double limb; it is instantiated for `w = 64` only) — `mul_wraps` asks
+`3 ≤ w ∨ n ≠ 4`; decimal text needs `10 < 2^w`; conversion to a built-in type of `b` bits needs
+`b ≤ w ∨ w ∣ b` (the code's limb-ratio shortcut), true for all 8/16/32/64/128-bit types over 8/16/32/64-bit limbs.
+
+Not covered here (see the report): conversion to/from floating point, Karatsuba multiplication
+(≥ 129 limbs — compared by the harness against the schoolbook model, not transcribed), `operator~`
+(does not compile for multi-limb `wide_integer`).
+-/
 namespace Cnl.C10
+open Cnl Cnl.Wide Cnl.WideSpec
+open Cnl.Wide.Bridge (Val)
+
+/-! ## Part 1 — limb routines, for every limb width and limb count -/
+
+/-- `eval_add_n`: sum with carry-in and carry-out -/
+theorem add_with_carry {w : Nat} {a b : Limbs} {c : Nat} (hw : 1 ≤ w) (ha : WF w a) (hb : WF w b)
+    (hl : a.length = b.length) (hc : c ≤ 1) :
+    toNat w (addN w a b c).1 + (addN w a b c).2 * 2^(w * a.length) = toNat w a + toNat w b + c :=
+  (Basic.addN_spec hw ha hb hl hc).1
+
+/-- `eval_subtract_n`: difference with borrow-in and borrow-out -/
+theorem subtract_with_borrow {w : Nat} {a b : Limbs} {bin : Bool} (hw : 1 ≤ w) (ha : WF w a) (hb : WF w b)
+    (hl : a.length = b.length) :
+    toNat w (subN w a b bin).1 + toNat w b + (if bin then 1 else 0)
+      = toNat w a + (if (subN w a b bin).2 then 1 else 0) * 2^(w * a.length) :=
+  (Basic.subN_spec hw ha hb hl).1
+
+/-- generic `eval_multiply_n_by_n_to_lo_part`: the low `n` limbs of the product -/
+theorem multiply_low_part {w : Nat} {a b : Limbs} (ha : WF w a) (hb : WF w b) (hl : a.length = b.length) :
+    toNat w (mulLo w a b) = (toNat w a * toNat w b) % 2^(w * a.length) :=
+  (Mul.mulLo_spec ha hb hl).1
+
+/-- the unrolled four-limb `eval_multiply_n_by_n_to_lo_part` -/
+theorem multiply_low_part_unrolled4 {w a0 a1 a2 a3 b0 b1 b2 b3 : Nat} (hw : 3 ≤ w)
+    (h0 : a0 < 2^w) (h1 : a1 < 2^w) (h2 : a2 < 2^w) (h3 : a3 < 2^w)
+    (k0 : b0 < 2^w) (k1 : b1 < 2^w) (k2 : b2 < 2^w) (k3 : b3 < 2^w) :
+    toNat w (mulLo4 w a0 a1 a2 a3 b0 b1 b2 b3) = (toNat w [a0,a1,a2,a3] * toNat w [b0,b1,b2,b3]) % 2^(w * 4) :=
+  (Mul.mulLo4_spec hw h0 h1 h2 h3 k0 k1 k2 k3).1
+
+/-- `eval_multiply_1d`: product by one limb, with the carry limb -/
+theorem multiply_by_limb {w : Nat} {a : Limbs} {b : Nat} (ha : WF w a) (hb : b < 2^w) :
+    toNat w (mul1d w a b).1 + (mul1d w a b).2 * 2^(w * a.length) = toNat w a * b :=
+  (Basic.mul1d_spec ha hb).1
+
+/-- `eval_divide_by_single_limb`: `q·d + r = a` and `r < d` -/
+theorem short_division {w d : Nat} {a : Limbs} (hd : 0 < d) (hdw : d < 2^w) (ha : WF w a) :
+    toNat w (divShort w d 0 a).1 * d + (divShort w d 0 a).2 = toNat w a ∧ (divShort w d 0 a).2 < d := by
+  obtain ⟨hq, hr, _, _⟩ := Div.divShort_spec hd hdw ha
+  rw [hq, hr]
+  exact ⟨by rw [Nat.mul_comm]; exact Nat.div_add_mod _ _, Nat.mod_lt _ hd⟩
+
+/-- `shl` -/
+theorem shift_left_limbs {w : Nat} {a : Limbs} {k : Nat} (hw : 1 ≤ w) (ha : WF w a) (hk : k < w * a.length) :
+    toNat w (shl w a k) = (toNat w a * 2^k) % 2^(w * a.length) :=
+  (Shift.shl_spec hw ha hk).1
+
+/-- `shr`: ones are shifted in for a negative signed value -/
+theorem shift_right_limbs {f : Fmt} {a : Limbs} {k : Nat} (hw : 1 ≤ f.w) (ha : WF f.w a) (hl : a.length = f.n) (hk : k < f.N) :
+    toNat f.w (shr f a k) = (toNat f.w a + (if isNeg f a then (2^k - 1) * 2^f.N else 0)) / 2^k :=
+  (Shift.shr_spec hw ha hl hk).1
+
+/-- `negate` (`bitwise_not` then `preincrement`) -/
+theorem negate_limbs {w : Nat} {a : Limbs} (ha : WF w a) :
+    toNat w (negate w a) = (2^(w * a.length) - toNat w a) % 2^(w * a.length) :=
+  (Basic.negate_spec ha).1
+
+/-- `compare_ranges` is the order of the values -/
+theorem compare_limbs {w : Nat} {a b : Limbs} (ha : WF w a) (hb : WF w b) (hl : a.length = b.length) :
+    cmpRanges a b = (if toNat w a < toNat w b then -1 else if toNat w a = toNat w b then 0 else 1) :=
+  Basic.cmpRanges_spec ha hb hl
+
+/-- limb-wise `&`, `|`, `^` are the bitwise operators on the values -/
+theorem bitwise_limbs {w : Nat} {a b : Limbs} (ha : WF w a) (hb : WF w b) (hl : a.length = b.length) :
+    toNat w (bitAnd a b) = toNat w a &&& toNat w b ∧ toNat w (bitOr a b) = toNat w a ||| toNat w b
+    ∧ toNat w (bitXor a b) = toNat w a ^^^ toNat w b :=
+  ⟨(Basic.bitAnd_spec ha hb hl).1, (Basic.bitOr_spec ha hb hl).1, (Basic.bitXor_spec ha hb hl).1⟩
+
+/-- `eval_divide_knuth` (all paths: trivial, single limb, Algorithm D) returns the Euclidean quotient and remainder -/
+theorem knuth_division {w : Nat} {u v : Limbs} (maxv : Limbs) (hw : 1 ≤ w) (hu : WF w u) (hv : WF w v)
+    (hl : u.length = v.length) (hv0 : toNat w v ≠ 0) :
+    ∃ o, divKnuth w u v maxv = some o ∧ toNat w o.q = toNat w u / toNat w v ∧ toNat w o.r = toNat w u % toNat w v :=
+  let ⟨o, h, hq, hr, _⟩ := Knuth.divKnuth_spec maxv hw hu hv hl hv0
+  ⟨o, h, hq, hr⟩
+
+/-- a checked division result is the Euclidean quotient and remainder (uniqueness of Euclidean division) -/
+theorem div_checked_sound {w : Nat} {a b : Limbs} {q r : Nat} (h : divChecked w a b = some (q, r)) :
+    q = toNat w a / toNat w b ∧ r = toNat w a % toNat w b :=
+  DivOp.divChecked_sound h
+
+/-- full strength: Algorithm D's `q̂` correction always suffices — `divChecked` never fails on a non-zero divisor -/
+def KnuthComplete : Prop :=
+  ∀ (w : Nat) (a b : Limbs), 1 ≤ w → WF w a → WF w b → a.length = b.length → toNat w b ≠ 0 →
+    (divChecked w a b).isSome = true
+
+theorem knuth_complete : KnuthComplete := Knuth.knuth_complete
+
+/-! ## Part 2 — every operator is `wrapTwos N` of the exact result (signed and unsigned) -/
+
+theorem add_wraps {f : Fmt} {a b : Limbs} (hw : 1 ≤ f.w) (hn : 1 ≤ f.n) (ha : Val f a) (hb : Val f b) :
+    toInt f (opAdd f.w a b) = wrapTwos f.N f.signed (toInt f a + toInt f b) :=
+  (Arith.add_toInt hw hn ha hb).1
+
+theorem sub_wraps {f : Fmt} {a b : Limbs} (hw : 1 ≤ f.w) (hn : 1 ≤ f.n) (ha : Val f a) (hb : Val f b) :
+    toInt f (opSub f.w a b) = wrapTwos f.N f.signed (toInt f a - toInt f b) :=
+  (Arith.sub_toInt hw hn ha hb).1
+
+theorem mul_wraps {f : Fmt} {a b : Limbs} (hw : 1 ≤ f.w) (hn : 1 ≤ f.n) (h4 : 3 ≤ f.w ∨ f.n ≠ 4) (ha : Val f a) (hb : Val f b) :
+    toInt f (opMul f.w a b) = wrapTwos f.N f.signed (toInt f a * toInt f b) :=
+  (Arith.mul_toInt hw hn h4 ha hb).1
+
+/-- the Knuth routine meets what the sign-handling wrappers of `/` and `%` need -/
+theorem knuth_correct (f : Fmt) (hw : 1 ≤ f.w) :
+    ∀ a' b', Val f.unsignedView a' → Val f.unsignedView b' → toNat f.w b' ≠ 0 → DivOp.KnuthCorrect f.w a' b' := by
+  intro a' b' ha' hb' hb0 maxv
+  obtain ⟨o, e, q, r, wq, wr, lq, lr⟩ :=
+    Knuth.divKnuth_spec maxv hw ha'.1 hb'.1 (ha'.2.trans hb'.2.symm) hb0
+  exact ⟨o, e, q, r, wq, lq, wr, lr⟩
+
+/-- `operator/`: division truncating toward zero (only `lowest / -1` wraps) -/
+theorem div_wraps {f : Fmt} {a b : Limbs} (hw : 1 ≤ f.w) (hn : 1 ≤ f.n) (ha : Val f a) (hb : Val f b) (hb0 : toInt f b ≠ 0) :
+    ∃ o, opDiv f a b = some o ∧ toInt f o.q = wrapTwos f.N f.signed ((toInt f a).tdiv (toInt f b)) :=
+  let ⟨o, h, hq, _⟩ := DivOp.opDiv_toInt hw hn ha hb hb0 (knuth_correct f hw)
+  ⟨o, h, hq⟩
+
+/-- `operator%`: the remainder of the truncating division (sign of the dividend) -/
+theorem mod_wraps {f : Fmt} {a b : Limbs} (hw : 1 ≤ f.w) (hn : 1 ≤ f.n) (ha : Val f a) (hb : Val f b) (hb0 : toInt f b ≠ 0) :
+    ∃ o, opMod f a b = some o ∧ toInt f o.r = wrapTwos f.N f.signed ((toInt f a).tmod (toInt f b)) :=
+  let ⟨o, h, hr, _⟩ := DivOp.opMod_toInt hw hn ha hb hb0 (knuth_correct f hw)
+  ⟨o, h, hr⟩
+
+theorem neg_wraps {f : Fmt} {a : Limbs} (hw : 1 ≤ f.w) (hn : 1 ≤ f.n) (ha : Val f a) :
+    toInt f (negate f.w a) = wrapTwos f.N f.signed (-(toInt f a)) :=
+  (Arith.neg_toInt hw hn ha).1
+
+/-- `++` and `--` -/
+theorem inc_dec_wrap {f : Fmt} {a : Limbs} (hw : 1 ≤ f.w) (hn : 1 ≤ f.n) (ha : Val f a) :
+    toInt f (preinc f.w a) = wrapTwos f.N f.signed (toInt f a + 1)
+    ∧ toInt f (predec f.w a) = wrapTwos f.N f.signed (toInt f a - 1) :=
+  ⟨(Arith.preinc_toInt hw hn ha).1, (Arith.predec_toInt hw hn ha).1⟩
+
+/-- `&`, `|`, `^` act on the N-bit two's-complement patterns -/
+theorem bitwise_wrap {f : Fmt} {a b : Limbs} (hw : 1 ≤ f.w) (hn : 1 ≤ f.n) (ha : Val f a) (hb : Val f b) :
+    toInt f (bitAnd a b) = wrapTwos f.N f.signed (Int.ofNat (pattern f.N (toInt f a) &&& pattern f.N (toInt f b)))
+    ∧ toInt f (bitOr a b) = wrapTwos f.N f.signed (Int.ofNat (pattern f.N (toInt f a) ||| pattern f.N (toInt f b)))
+    ∧ toInt f (bitXor a b) = wrapTwos f.N f.signed (Int.ofNat (pattern f.N (toInt f a) ^^^ pattern f.N (toInt f b))) :=
+  ⟨(Arith.and_toInt hw hn ha hb).1, (Arith.or_toInt hw hn ha hb).1, (Arith.xor_toInt hw hn ha hb).1⟩
+
+/-- the six comparisons are the order of the integers -/
+theorem comparisons {f : Fmt} {a b : Limbs} (op : CmpOp) (hw : 1 ≤ f.w) (hn : 1 ≤ f.n) (ha : Val f a) (hb : Val f b) :
+    cmpOp f op a b = specCmp op (toInt f a) (toInt f b) :=
+  Arith.cmpOp_spec op hw hn ha hb
+
+/-- `<<` by `0 ≤ k < N` (count of signed or unsigned type): multiplication by `2^k`, reduced -/
+theorem shl_wraps {f : Fmt} {a : Limbs} {k : Int} {sgn : Bool} (hw : 1 ≤ f.w) (hn : 1 ≤ f.n) (ha : Val f a)
+    (hk0 : 0 ≤ k) (hkN : k < f.N) :
+    toInt f (shlOp f a k sgn) = wrapTwos f.N f.signed (toInt f a * 2^k.toNat) :=
+  (ShiftOp.shlOp_toInt hw hn ha hk0 hkN).1
+
+/-- `>>` by `0 ≤ k < N`: floor division by `2^k` — arithmetic for negative values; no reduction is needed -/
+theorem shr_floor {f : Fmt} {a : Limbs} {k : Int} {sgn : Bool} (hw : 1 ≤ f.w) (hn : 1 ≤ f.n) (ha : Val f a)
+    (hk0 : 0 ≤ k) (hkN : k < f.N) :
+    toInt f (shrOp f a k sgn) = toInt f a / 2^k.toNat
+    ∧ toInt f (shrOp f a k sgn) = wrapTwos f.N f.signed (toInt f a / 2^k.toNat) :=
+  ⟨(ShiftOp.shrOp_toInt hw hn ha hk0 hkN).1, ShiftOp.shrOp_toInt_wrap hw hn ha hk0 hkN⟩
+
+/-- all binary operators of `wide_integer op wide_integer` at once, against the spec's `specBin` -/
+theorem binOp_spec {f : Fmt} {a b : Limbs} (op : BinOp) (hop : op ≠ .shl ∧ op ≠ .shr) (hw : 1 ≤ f.w) (hn : 1 ≤ f.n)
+    (h4 : 3 ≤ f.w ∨ f.n ≠ 4) (ha : Val f a) (hb : Val f b) (hdiv : op = .div ∨ op = .mod → toInt f b ≠ 0) :
+    ∃ r, binOp f op a b = .ok r ∧ some (toInt f r) = specBin f.N f.signed op (toInt f a) (toInt f b) := by
+  cases op with
+  | add => exact ⟨_, rfl, by simp [specBin, exactBin, add_wraps hw hn ha hb]⟩
+  | sub => exact ⟨_, rfl, by simp [specBin, exactBin, sub_wraps hw hn ha hb]⟩
+  | mul => exact ⟨_, rfl, by simp [specBin, exactBin, mul_wraps hw hn h4 ha hb]⟩
+  | div =>
+    have hb0 := hdiv (Or.inl rfl)
+    obtain ⟨o, h, hq⟩ := div_wraps hw hn ha hb hb0
+    exact ⟨o.q, by simp [binOp, h], by simp [specBin, exactBin, hb0, hq]⟩
+  | mod =>
+    have hb0 := hdiv (Or.inr rfl)
+    obtain ⟨o, h, hr⟩ := mod_wraps hw hn ha hb hb0
+    exact ⟨o.r, by simp [binOp, h], by simp [specBin, exactBin, hb0, hr]⟩
+  | band => exact ⟨_, rfl, by simp [specBin, exactBin, (bitwise_wrap hw hn ha hb).1]⟩
+  | bor => exact ⟨_, rfl, by simp [specBin, exactBin, (bitwise_wrap hw hn ha hb).2.1]⟩
+  | bxor => exact ⟨_, rfl, by simp [specBin, exactBin, (bitwise_wrap hw hn ha hb).2.2]⟩
+  | shl => exact absurd rfl hop.1
+  | shr => exact absurd rfl hop.2
+
+/-! ## Part 3 — results do not depend on how the value is split into limbs -/
+
+/-- two formats of the same width and signedness (say 8 limbs of 32 bits and 4 limbs of 64 bits), operands
+denoting the same integers: every binary operator yields the same integer -/
+theorem limb_size_independent {f g : Fmt} {a b a' b' r r' : Limbs} (op : BinOp) (hop : op ≠ .shl ∧ op ≠ .shr)
+    (hfw : 1 ≤ f.w) (hfn : 1 ≤ f.n) (hf4 : 3 ≤ f.w ∨ f.n ≠ 4) (hgw : 1 ≤ g.w) (hgn : 1 ≤ g.n) (hg4 : 3 ≤ g.w ∨ g.n ≠ 4)
+    (hN : f.N = g.N) (hs : f.signed = g.signed)
+    (ha : Val f a) (hb : Val f b) (ha' : Val g a') (hb' : Val g b')
+    (hva : toInt f a = toInt g a') (hvb : toInt f b = toInt g b')
+    (hdiv : op = .div ∨ op = .mod → toInt f b ≠ 0)
+    (hr : binOp f op a b = .ok r) (hr' : binOp g op a' b' = .ok r') :
+    toInt f r = toInt g r' := by
+  obtain ⟨r1, e1, s1⟩ := binOp_spec op hop hfw hfn hf4 ha hb hdiv
+  obtain ⟨r2, e2, s2⟩ := binOp_spec op hop hgw hgn hg4 ha' hb' (fun h => hvb ▸ hdiv h)
+  rw [hr] at e1; rw [hr'] at e2
+  cases e1; cases e2
+  rw [hN, hs, hva, hvb] at s1
+  exact Option.some.inj (s1.trans s2.symm)
+
+/-- the same for shifts -/
+theorem limb_size_independent_shift {f g : Fmt} {a a' : Limbs} {k : Int} {sgn sgn' : Bool}
+    (hfw : 1 ≤ f.w) (hfn : 1 ≤ f.n) (hgw : 1 ≤ g.w) (hgn : 1 ≤ g.n) (hN : f.N = g.N) (hs : f.signed = g.signed)
+    (ha : Val f a) (ha' : Val g a') (hva : toInt f a = toInt g a') (hk0 : 0 ≤ k) (hkN : k < f.N) :
+    toInt f (shlOp f a k sgn) = toInt g (shlOp g a' k sgn') ∧ toInt f (shrOp f a k sgn) = toInt g (shrOp g a' k sgn') := by
+  have hkN' : k < g.N := hN ▸ hkN
+  constructor
+  · rw [shl_wraps hfw hfn ha hk0 hkN, shl_wraps hgw hgn ha' hk0 hkN', hN, hs, hva]
+  · rw [(shr_floor hfw hfn ha hk0 hkN).1, (shr_floor hgw hgn ha' hk0 hkN').1, hva]
+
+/-! ## Part 4 — conversions, numeric_limits, decimal text, storage rule -/
+
+/-- constructing from a built-in integer (no wider than the wide type) keeps the value -/
+theorem from_builtin {f : Fmt} {t : IntTy} {v : Int} (hw : 1 ≤ f.w) (hn : 1 ≤ f.n) (ht : 1 ≤ t.bits) (hb : t.bits ≤ f.N)
+    (hv : t.InRange v) :
+    toInt f (fromBuiltin f t v) = wrapTwos f.N f.signed v := by
+  obtain ⟨h1, h2, h3⟩ := Conv.fromBuiltin_toNat hw hn ht hb hv
+  apply Bridge.toInt_of_cong (Bridge.N_pos hw hn) ⟨h2, h3⟩
+  rw [h1, Int.toNat_of_nonneg (Int.emod_nonneg _ (by have : (0:Int) < 2^f.N := Int.pow_pos (by decide); omega))]
+  exact Int.emod_emod_of_dvd _ (Int.dvd_refl _)
+
+/-- conversion to a built-in integer type is the C++20 conversion of the value (reduction modulo `2^bits`) -/
+theorem to_builtin {f : Fmt} {t : IntTy} {a : Limbs} (hw : 1 ≤ f.w) (hn : 1 ≤ f.n) (ht : 1 ≤ t.bits)
+    (hr : t.bits ≤ f.w ∨ f.w ∣ t.bits) (hb : t.bits ≤ f.N) (ha : Val f a) :
+    toBuiltin f t a = t.wrap (toInt f a) :=
+  Conv.toBuiltin_spec hw hn ht hr hb ha.1 ha.2
+
+/-- `numeric_limits<wide_integer<D, _>>::max()` is `2^D − 1`, `lowest()` is `−2^D` (signed) or `0` —
+bounds follow `Digits` while arithmetic wraps at the storage width `N` -/
+theorem limits {f : Fmt} {D : Nat} (hw : 1 ≤ f.w) (hn : 1 ≤ f.n) (hD : D ≤ f.digits) (hD1 : 1 ≤ D) :
+    toInt f (limMax f D) = WideSpec.limMax D ∧ toInt f (limLowest f D) = WideSpec.limLowest D f.signed := by
+  have hN := Bridge.N_pos hw hn
+  obtain ⟨m1, m2, m3⟩ := Conv.limMax_toNat hw hn hD hD1
+  obtain ⟨l1, l2, l3⟩ := Conv.limLowest_toNat hw hn hD hD1
+  have hDN : D ≤ f.N - (if f.signed then 1 else 0) := by
+    unfold Fmt.digits at hD; split <;> simp_all
+  have hpD : (2:Nat)^D ≤ 2^(f.N - 1) ∨ f.signed = false := by
+    by_cases hs : f.signed = true
+    · left; apply Nat.pow_le_pow_right (by decide); simp [hs] at hDN; exact hDN
+    · right; simpa using hs
+  have hDle : (2:Nat)^D ≤ 2^f.N := Nat.pow_le_pow_right (by decide) (by split at hDN <;> omega)
+  have hp := Bridge.two_pow_pred_nat hN
+  have hpos : 0 < (2:Nat)^D := Nat.pow_pos (by decide)
+  have c0 : ((2^f.N : Nat) : Int) = (2:Int)^f.N := by simp
+  have cD : ((2^D : Nat) : Int) = (2:Int)^D := by simp
+  constructor
+  · unfold toInt WideSpec.limMax
+    rw [m1]
+    have : ¬ (f.signed = true ∧ 2^D - 1 ≥ 2^(f.N - 1)) := by
+      rintro ⟨hs, hge⟩
+      rcases hpD with h | h
+      · omega
+      · simp [hs] at h
+    simp only [this, if_false]
+    rw [Int.ofNat_sub hpos]; simp
+  · unfold toInt WideSpec.limLowest
+    rw [l1]
+    by_cases hs : f.signed = true
+    · have hle : (2:Nat)^D ≤ 2^(f.N - 1) := by rcases hpD with h | h; exact h; simp [hs] at h
+      have : 2^f.N - 2^D ≥ 2^(f.N - 1) := by omega
+      simp only [hs, if_true, this, and_self]
+      rw [Int.ofNat_sub hDle, c0, cD]; omega
+    · have hs' : f.signed = false := by simpa using hs
+      simp [hs']
+
+/-- `operator<<` on a stream (`wr_string`, base 10): the decimal text of the value -/
+theorem decimal_text {f : Fmt} {a : Limbs} (hw : 10 < 2^f.w) (hn : 1 ≤ f.n) (ha : Val f a) :
+    wrDec f a = decimalText (toInt f a) :=
+  Dec.wrDec_spec hw hn ha.1 ha.2
+
+/-- the storage rule of `wide_tag<Digits, Narrowest>` for multi-limb reps: limb = unsigned `Narrowest`,
+signedness of `Narrowest`, width = `Digits` (+1 sign bit) rounded up to whole limbs, chosen exactly when
+`Digits` exceeds the widest built-in integer -/
+theorem storage_rule {d : Nat} {t : IntTy} {f : Fmt} (ht : 1 ≤ t.bits) (h : storage d t = .multi f) :
+    f.w = t.bits ∧ f.signed = t.signed ∧ maxDigits t < d
+    ∧ d + (if t.signed then 1 else 0) ≤ f.N ∧ f.N < d + (if t.signed then 1 else 0) + t.bits := by
+  unfold storage at h
+  by_cases hd : d > maxDigits t
+  · simp only [hd, if_true] at h
+    injection h with h
+    subst h
+    refine ⟨rfl, rfl, hd, ?_, ?_⟩ <;>
+    · simp only [Fmt.N]
+      generalize d + (if t.signed = true then 1 else 0) = m
+      have h1 := Nat.div_add_mod (m + t.bits - 1) t.bits
+      have h2 := Nat.mod_lt (m + t.bits - 1) (show t.bits > 0 by omega)
+      omega
+  · simp [hd] at h
+
+/-! ## Non-vacuity: concrete instances (3 limbs of 8 bits, signed = a 24-bit integer; 4 limbs of 4 bits) -/
+
+example : Val ⟨8, 3, true⟩ [255, 255, 127] := ⟨by intro x hx; show x < 2^8; simp at hx; omega, rfl⟩
+-- max + 1 wraps to lowest
+example : toInt ⟨8, 3, true⟩ (opAdd 8 [255, 255, 127] [1, 0, 0]) = -(2^23) := by decide
+-- (-2) * 3 = -6 across limb boundaries
+example : toInt ⟨8, 3, true⟩ (opMul 8 [254, 255, 255] [3, 0, 0]) = -6 := by decide
+-- arithmetic right shift of -256 by 9 (one limb and one bit) is -1
+example : toInt ⟨8, 3, true⟩ (shrOp ⟨8, 3, true⟩ [0, 255, 255] 9 true) = -1 := by decide
+-- truncating division: -7 / 2 = -3, -7 % 2 = -1
+example : (opDiv ⟨8, 3, true⟩ [249, 255, 255] [2, 0, 0]).map (fun o => toInt ⟨8, 3, true⟩ o.q) = some (-3) := by decide
+example : (opMod ⟨8, 3, true⟩ [249, 255, 255] [2, 0, 0]).map (fun o => toInt ⟨8, 3, true⟩ o.r) = some (-1) := by decide
+-- a division in which Algorithm D's add-back step fires (65535 / 3277 with 4-bit limbs), still checked
+example : (divKnuth 4 [15, 15, 15, 15] [13, 12, 12, 0] []).map (fun o => o.stats.addBack) = some 1 := by decide
+example : divChecked 4 [15, 15, 15, 15] [13, 12, 12, 0] = some (19, 3272) := by decide
+-- the same integers in two limb sizes give the same product (24 bits as 3×8 and as 2×12)
+example : toInt ⟨8, 3, true⟩ (opMul 8 [57, 48, 0] [254, 255, 255]) = toInt ⟨12, 2, true⟩ (opMul 12 [57, 3] [4094, 4095]) := by decide
+-- storage of wide_integer<200, int32_t>: 7 limbs of 32 bits, signed (224-bit integer)
+example : storage 200 i32 = .multi ⟨32, 7, true⟩ := by decide
+example : wrDec ⟨8, 3, true⟩ [249, 255, 255] = "-7" := by decide
+
 end Cnl.C10
